@@ -43,7 +43,8 @@ RULE = ("function texts from the grammar in the module docstring x delivery form
         "expression, non-4-space indentation, whole-text indentation}; distinct = case hash")
 ASSUMPTIONS = [
     "decorators are identity decorators (modelx strips decorators from the captured formula by design)",
-    "positional-or-keyword parameters only; two lambdas on one source line are not generated for lambda objects",
+    "positional-or-keyword parameters only; a lambda object that is the second lambda of its source line may be refused "
+    "(documented limit of capture from objects) but must not be captured as the other lambda",
 ]
 SIGNATURES = {}
 
@@ -156,12 +157,21 @@ def def_text(draw):
         feats.add("comment")
     lines.append(head)
     doc = draw(st.sampled_from(DOCS))
+    dz = False
     if doc is not None:
         lines += (ind + doc.replace("{ind}", ind)).split("\n")
         feats.add("docstring")
+        tailkind = draw(st.integers(0, 5))
+        if tailkind == 0:
+            lines[-1] += "; dz = 7"            # a statement on the physical line the docstring ends on
+            dz = True
+            feats.add("semicolon")
+        elif tailkind == 1:
+            lines[-1] += "  # comment after the docstring"
+            feats.add("comment")
     lines.append(ind + "r = %s" % (" + ".join(params) if params else "k"))
     lines += gen_stmts(draw, ind, name, params, feats)
-    last = ind + "return r"
+    last = ind + ("return r + dz" if dz else "return r")
     tail = draw(st.integers(0, 4))
     if tail == 0:
         last += "  # comment on the last line"
@@ -220,6 +230,11 @@ def cases(draw):
         t["delivery"] = draw(st.sampled_from(["source", "lambdaobj"]))
         if "lambda z" in t["text"]:
             t["delivery"] = "source"    # two lambdas on one source line: documented limit of capture from objects
+        elif t["delivery"] == "lambdaobj" and "\n" not in t["text"] and not t["text"].startswith("fn = ") \
+                and draw(st.integers(0, 5)) == 0:
+            # ... offered all the same, as the SECOND lambda of its line: refusing is fine, capturing the other
+            # lambda is not
+            t["two_on_line"] = True
         t["given_name"] = "lam"
     if t["delivery"] == "source_indented":
         t["feats"] = sorted(set(t["feats"]) | {"whole-indent"})
@@ -348,7 +363,9 @@ def run_case(case):
                 _modcount[0] += 1
                 modname = "vfc20mod_%d_%d" % (os.getpid(), _modcount[0])
                 src = "k = 7\n\ndef _ident(f):\n    return f\n\ndef _identf(*a):\n    return _ident\n\ndef h(x):\n    return x * 10 + 1\n\n"
-                if is_lambda:
+                if is_lambda and case.get("two_on_line"):
+                    src += "fn0, fn = (lambda x=0, y=0: x + 1000), (" + case["text"] + ")\n"
+                elif is_lambda:
                     t = case["text"]
                     src += (t if t.startswith("fn = ") else "fn = " + t) + "\n"
                 else:
@@ -363,6 +380,9 @@ def run_case(case):
                 func = getattr(mod, "fn" if is_lambda else case["name"])
                 c = s.new_cells(name, func)
         except Exception as exc:
+            if case.get("two_on_line") and isinstance(exc, ValueError):
+                out.label("two_lambdas_refused")
+                return out
             return out.fail("capture-rejected", "%s delivery of\n%s\nraised %r" % (delivery, case["text"], exc))
         # 1. behaviour and parameters
         if list(c.parameters) != list(inspect.signature(ref).parameters):
